@@ -4,7 +4,7 @@
 import copy
 
 from ._compat import PY_3_9_PLUS, get_generic_base
-from ._make import _OBJ_SETATTR, NOTHING, fields
+from ._make import _OBJ_SETATTR, NOTHING, Attribute, fields
 from .exceptions import AttrsAttributeNotFoundError
 
 
@@ -392,7 +392,8 @@ def assoc(inst, **changes):
     attrs = fields(inst.__class__)
     for k, v in changes.items():
         a = getattr(attrs, k, NOTHING)
-        if a is NOTHING:
+        # The fields tuple also has the methods of tuple (count, index, ...).
+        if not isinstance(a, Attribute):
             msg = f"{k} is not an attrs attribute on {new.__class__}."
             raise AttrsAttributeNotFoundError(msg)
         _OBJ_SETATTR(new, k, v)
